@@ -88,6 +88,8 @@ def _keep_step(prop, inst):
     for pat, props in (("Homogenization", ("C10",)), ("min_x", ("C20",)), ("minx", ("C20",))):
         if pat in k and prop in props:
             return True
+    if prop == "C14" and ("activeCov" in k or "Cluster::" in k):
+        return True          # see below: the covariance block of the surviving observations
     if anchors:
         return prop in anchors
     # sibling pairs / groups: g3 regularisation list under C19, min_x_ and ind[] fills under C01/C10, writer summaries under C12
